@@ -8,7 +8,7 @@ if ! git -C /repo diff --quiet; then echo "refusing: /repo dirty"; exit 2; fi
 collect() { # name patch prop
   name=$1; patch=$2; prop=$3
   [ -f replays/regress/$name.json ] && return
-  git -C /repo apply "$patch" || { echo "$name: patch does not apply"; return; }
+  git -C /repo apply "/verif/$patch" || { echo "$name: patch does not apply"; return; }
   find /verif/replays -maxdepth 1 -name "$prop-*.json" -delete
   out=$(./check quick $prop --no-evidence 2>&1); rc=$?
   git -C /repo checkout -- .
